@@ -261,7 +261,10 @@ fn eval_primary_expr(
         expr::PrimaryExpr::Function(func) => eval_func_expr(func, node, context),
         expr::PrimaryExpr::Literal(literal) => Ok(literal.to_string().as_value()),
         expr::PrimaryExpr::Number(number) => Ok(number.parse::<f64>().unwrap().as_value()),
-        expr::PrimaryExpr::Variable(_) => unimplemented!("Not support `VariableReference`."),
+        expr::PrimaryExpr::Variable(name) => Err(error::Error::NotSupported(format!(
+            "variable reference {:?}",
+            name
+        ))),
     }
 }
 
